@@ -93,6 +93,10 @@ def handle (line : String) : String :=
         let items := os.map (fun o => (match o.ver with | .v2 => "2" | .v3 => "3" | .v4 => "4") ++ "=" ++ esc o.clean ++ "=" ++ esc o.vector)
         "ok\t" ++ ";".intercalate items
     | none => "bad-op"
+  | ["XF", s] =>      -- raw matches of the scanner model of the regex
+    match decodeStr s with
+    | some str => "ok\t" ++ "\u0001".intercalate ((Extract.findAll isDigitU str.length str).map esc)
+    | none => "bad-op"
   | "I" :: v :: all :: answers =>
     match parseIVer v, answers.mapM decodeStr with
     | some iv, some ans =>
